@@ -197,6 +197,19 @@ let wsval_of_string (s : string) : sval =
     | c -> failwith (Printf.sprintf "parse: sval %c" c)) in
   if st.zp <> String.length s then failwith "parse: trailing"; v
 
+
+(* ---- one URL attribute (C07): items T:<hex> / S:<hex> separated by ';' *)
+let uparse_items (s : string) : item list =
+  List.map (fun e -> match String.split_on_char ':' e with
+    | ["T"; h] -> UText (bytes_of_hex h)
+    | ["S"; h] -> UShow (bytes_of_hex h)
+    | _ -> failwith ("bad item " ^ e)) (split ';' s)
+let ucanon (u : url) : string =
+  let pairs = List.filter (fun (k, v) -> not (k = [] && v = None)) (match u.u_query with Some l -> l | None -> []) in
+  let ps = List.map (fun (k, v) -> hex_of_bytes k ^ ":" ^ (match v with Some x -> "x" ^ hex_of_bytes x | None -> "-")) pairs in
+  "path=x" ^ hex_of_bytes u.u_path ^ " query=" ^ (if ps = [] then "-" else String.concat "," ps)
+  ^ " frag=" ^ (match u.u_frag with Some (_ :: _ as f) -> "x" ^ hex_of_bytes f | _ -> "-")
+
 let handle (f : string list) : string =
   match f with
   | ["rend"; fail_at; ops] ->
@@ -249,6 +262,24 @@ let handle (f : string list) : string =
        if ws.w_calls <> ws2.w_calls || ws.w_out <> ws2.w_out || r <> r2 then "program-and-view-differ"
        else "calls=" ^ string_of_int (int_of_n ws.w_calls) ^ " out=" ^ chunks_s ws.w_out ^ " res=" ^ res_s r
      | _, _ -> "unmodelled")
+  | ["urlattr"; q; its] ->
+    let items = uparse_items its in
+    let ctx = n_of_int (if q = "1" then 135 else 136) in
+    let w = writer_of 0 in
+    (* the operations of the attribute on the operational model, and the rule of the query position *)
+    let rec go st ws before items qpos =
+      match items with
+      | [] -> (ws, qpos)
+      | it :: r ->
+        let o = (match it with
+          | UText t -> OText (t, true, false)
+          | UShow s -> OShow (ctx, { sv_chunks = []; sv_err = None; sv_url = Some s })) in
+        let qpos' = (match it with UShow _ -> qpos ^ (if query_position (List.rev before) then "1" else "0") | UText _ -> qpos) in
+        let ((st', ws'), x) = r_op w st ws o in
+        if x <> ROk then failwith "operation failed" else go st' ws' (it :: before) r qpos' in
+    let (ws, qpos) = go r0 w0 [] items "" in
+    let out = List.concat ws.w_out in
+    "out=x" ^ hex_of_bytes out ^ " qpos=" ^ qpos ^ " url=" ^ ucanon (url_ref_decode out)
   | ["pathEscape"; q; h] -> script_s (pathEscape (b01 q) (bytes_of_hex h))
   | ["queryEscape"; h] -> script_s (queryEscape (bytes_of_hex h))
   | ["pe_q"; h] -> "ok:" ^ hex_of_bytes (path_escape_quoted_bytes (bytes_of_hex h))
